@@ -214,7 +214,8 @@ def gen_tube(rng):
                 multiplier=rng.choice([["int", 1], ["int", rng.randint(2, 50)], ["npint", 7]]),
                 abstraction=ab, plane=h * rng.choice([0.0, 0.5, 1.0, rng.random()]),
                 angle=rng.choice([0.0, 1.0, -2.5, 7.0, rng.uniform(0, 6.28)]))
-    ntime = rng.randint(1, 3)
+    # mostly short histories; sometimes lengths around a power of two (block-wise writers)
+    ntime = rng.choice([1, 2, 3, 1, 2, 3, 2, 3, 32, 33, 65])
     tk = rng.choice(["array", "array", "list", "intlist", "unset"])
     spec["times_kind"] = tk
     has_results = tk != "unset"
